@@ -39,6 +39,11 @@ RULE = ('scenes of 1-12 blends of 2-4 elliptical Gaussians + isolated + sub-2*np
         'subset of small sources / labels=[]; exactly one candidate; candidates that split into nothing: contrast~1, '
         'nlevels=1, flat sources; contrast=1; label-less image) with input labels consecutive / with holes / '
         'increasing / permuted / shifted and relabel T/F; 20 % of the other classes also get gapped labels. '
+        'Independently of the class about half of the cases draw generic axes: data scale 2**-60..2**40 / '
+        '1e-20..1e10, data and label arrays as F-order / strided / transposed / offset / big-endian views, float32 '
+        'and integer data, 1 x k-cell and k x 1 images, 1xN and Nx1 images, numpy-scalar / 0-d / positional call '
+        'forms of npixels nlevels contrast connectivity relabel mode nproc, 11 labels= forms. Every case makes a '
+        'second call with another mode (nproc=1 and virtual pool) and then repeats the first call. '
         'non-trivial = at least one parent was split into >=2 children, or nothing was split but the input labels '
         'are not 1..N and contrast != 1 (the 1..N / label-kept clauses are then not vacuous); distinct by digest of '
         '(data, input label array, arguments)')
@@ -58,7 +63,7 @@ MUST_REACH = ['photutils.segmentation.deblend:deblend_sources',
               'photutils.segmentation.detect:detect_sources']
 ANCHOR_FILES = ['segmentation/deblend.py', 'segmentation/detect.py', 'segmentation/core.py',
                 'segmentation/finder.py']
-MIN_NONTRIVIAL = {'quick': 150, 'thorough': 2000}
+MIN_NONTRIVIAL = {'quick': 100, 'thorough': 2000}
 ASSUMPTIONS = ['numpy/pickle are trusted; detect_sources (judged by C04) is only used to produce input label maps',
                'virtual pool = one in-process worker executing the pickled tasks in the chosen completion order; '
                'OS-level pool failures are not modelled',
@@ -72,7 +77,7 @@ HOOKS = os.path.join(os.path.dirname(os.path.dirname(os.path.dirname(os.path.abs
 def plan(tier):
     if tier == 'thorough':
         return dict(shards=16, cases=6000, timeout=1500, budget_s=540)
-    return dict(shards=6, cases=170, timeout=400, budget_s=50)
+    return dict(shards=6, cases=170, timeout=400, budget_s=34)
 
 
 def selftest():
@@ -95,13 +100,20 @@ def build_inputs(rng, cls):
         return None
     facts = dict(sc['flags'])
     fresh = bool(rng.random() < 0.5)
-    if facts.get('degenerate') == 'empty_image':
+    seg_layout = sc.get('seg_layout', 'C')
+    if seg_layout != 'C' and not sc['post'] and facts.get('degenerate') != 'empty_image':
+        facts['seg_layout'] = seg_layout
+        seg = SegmentationImage(gen.apply_layout(seg0.data.copy(), seg_layout))
+    elif facts.get('degenerate') == 'empty_image':
         seg = SegmentationImage(np.zeros_like(seg0.data))    # e.g. what remove_labels(all labels) leaves
     elif sc['post']:
         arr, pf = gen.apply_post(rng, seg0.data, sc['post'])
         facts.update(pf)
         if not arr.any():
             return None
+        if seg_layout != 'C' and 'dtype' not in pf:
+            facts['seg_layout'] = seg_layout
+            arr = gen.apply_layout(arr, seg_layout)
         seg = SegmentationImage(arr)
     elif fresh:
         seg = SegmentationImage(seg0.data.copy())
@@ -119,16 +131,20 @@ def build_inputs(rng, cls):
     quantity = bool(rng.random() < 0.06) and data.dtype.kind == 'f'
     return dict(data=data, seg=seg, kw=kw, labels_arg=labels_arg, requested=req, conn=sc['conn'],
                 thr=sc['thr'], mask=sc['mask'], npix_det=sc['npix_det'], facts=facts,
-                labels_kind=labels_kind, layout=sc['layout'], quantity=quantity,
+                labels_kind=labels_kind, layout=sc['layout'], quantity=quantity, forms=sc.get('forms'),
+                axes=sc.get('axes', {}),
                 n_eligible=int(np.count_nonzero(areas[np.isin(labs, req)] >= 2 * kw['npixels'])),
                 areas=dict(zip(labs.tolist(), areas.tolist())))
 
 
-def _call(b, nproc, data=None, seg=None):
+def _call(b, nproc, data=None, seg=None, kw=None):
     from photutils.segmentation import deblend_sources
     data = b['data_arg'] if data is None else data
-    return deblend_sources(data, b['seg'] if seg is None else seg, labels=b['labels_arg'],
-                           connectivity=b['conn'], nproc=nproc, progress_bar=False, **b['kw'])
+    pos, kwargs = gen.apply_forms(b['kw'] if kw is None else kw, b['conn'], b.get('forms'))
+    if b.get('forms') and b['forms']['nproc'] == 'np.int64' and nproc is not None:
+        nproc = np.int64(nproc)
+    args = (data, b['seg'] if seg is None else seg) + (() if pos is None else (pos,))
+    return deblend_sources(*args, labels=b['labels_arg'], nproc=nproc, progress_bar=False, **kwargs)
 
 
 def _input_state(b):
@@ -174,6 +190,7 @@ def run_case(case):
     S = seg.data.copy()
     case.params = dict(shape=list(S.shape), n_labels=int(seg.nlabels), conn=b['conn'], labels=b['labels_kind'],
                        seg_dtype=str(S.dtype), data_dtype=str(b['data'].dtype), layout=b['layout'],
+                       forms=b.get('forms'),
                        quantity=b['quantity'], n_eligible=b['n_eligible'], **kw, **b['facts'])
     case.digest = core.arr_digest(np.asarray(b['data']), S, np.array(b['requested'], dtype=np.int64)) \
         + core.digest([kw, b['conn'], b['labels_kind']])
@@ -244,6 +261,34 @@ def run_case(case):
 
     # ---- M5 (i): virtual pool, chosen completion orders ---------------------------------
     n_sched = _schedules(case, b, snap1, mech)
+
+    # ---- every case: a second call with another mode in the same process, then the first again ----
+    if case.cls != 'dtype':
+        _second_mode(case, b, S, snap1, mech)
+        _generic_relations(case, b, S, snap1, mech)
+    for k, v in b['axes'].items():
+        if k == 'forms':
+            for a, f in v.items():
+                if f not in ('int', 'float', 'bool', 'str'):
+                    case.note('axis_form_%s=%s' % (a, f))
+        elif k == 'scale':
+            if 'scale' in b['facts']:
+                case.note('axis_scale_%s' % v[0])
+                case.dev('axis_log10_scale_max', np.log10(b['facts']['scale']))
+                case.dev('axis_log10_scale_min_neg', -np.log10(b['facts']['scale']))
+        elif k == 'seg_layout':
+            if 'seg_layout' in b['facts']:
+                case.note('axis_seg_layout=%s' % v)
+        elif k == 'data_dtype':
+            if 'data_dtype_axis' in b['facts']:
+                case.note('axis_data_dtype=%s' % b['facts']['data_dtype_axis'])
+        elif k == 'labels_form':
+            if b['labels_kind'] == v:
+                case.note('axis_labels_form=%s' % v)
+        else:
+            case.note('axis_%s=%s' % (k, v))
+    if not b['axes']:
+        case.note('axis_plain_case')
 
     # ---- class specific relations --------------------------------------------------------
     if case.cls == 'finder':
@@ -338,6 +383,108 @@ def _finder(case, b, mech):
     nod = SourceFinder(npix, deblend=False, **common)(data, thr, mask=b['mask'])
     case.check(np.array_equal(nod.data, manual_seg.data), 'finder_nodeblend_equals_detect', mech)
     case.note('schedules_applied', 2)
+
+
+def _judge(case, S, out, b, kw, mech):
+    rep, facts = refine.refine_report(
+        S, out.data, b['requested'], kw['npixels'], kw['relabel'], contrast_is_one=(kw['contrast'] == 1),
+        inv_map=out.deblended_labels_inverse_map, dl=out.deblended_labels,
+        dl_map=out.deblended_labels_map, out_labels=out.labels)
+    for what, ok, detail in rep:
+        case.check(ok, what, mech, **detail)
+    return facts
+
+
+def _second_mode(case, b, S, snap1, mech):
+    """Process-local state carried from one call to the next: call B (another mode, same input) under
+    nproc=1 and under the virtual pool, then call A again under both; B is judged by the refinement
+    oracle, A must reproduce the first result bit for bit."""
+    rng = case.rng
+    kw = b['kw']
+    others = [m for m in gen.MODES if m != kw['mode']]
+    kw2 = dict(kw, mode=others[int(rng.integers(0, 2))])
+    b2 = dict(b, kw=kw2)
+    m2 = dict(mech, stage='mode2')
+    heavy = case.cls == 'nmarkers'
+    try:
+        outB = _call(b2, 1)
+    except ValueError as exc:
+        if case.cls == 'merged' and 'Deblending failed for source' in str(exc):
+            case.note('merged_rejected_as_documented')
+            return
+        raise
+    _judge(case, S, outB, b, kw2, m2)
+    snapB = sched.snapshot(outB)
+    case.note('second_mode_sequences')
+    nproc = [2, 3, 4, 8][int(rng.integers(0, 4))]
+    if not heavy:
+        with sched.VirtualPool(order=None) as vp:
+            o = _call(b2, nproc)
+        d = sched.diff_snapshots(snapB, sched.snapshot(o))
+        case.check(not d, 'sched_identical', dict(m2, leg='virtual', field=(d[0] if d else None)), fields=d)
+        case.note('schedules_applied')
+        n = vp.n_tasks or 0
+        if n >= 2:
+            order = [int(v) for v in rng.permutation(n)]
+            with sched.VirtualPool(order=order, lazy_pickle=True):
+                o = _call(b2, nproc)
+            d = sched.diff_snapshots(snapB, sched.snapshot(o))
+            case.check(not d, 'sched_identical', dict(m2, leg='virtual', field=(d[0] if d else None)),
+                       fields=d, order=order)
+            case.note('schedules_applied')
+    # back to the first mode: nothing of call B may be left behind
+    d = sched.diff_snapshots(snap1, sched.snapshot(_call(b, 1)))
+    case.check(not d, 'serial_repeatable', dict(mech, field=(d[0] if d else None), after='mode2'), fields=d)
+    if not heavy:
+        with sched.VirtualPool(order=None) as vp:
+            o = _call(b, nproc)
+        n = vp.n_tasks or 0
+        order = None
+        if n >= 2:
+            order = [int(v) for v in rng.permutation(n)]
+            with sched.VirtualPool(order=order):
+                o = _call(b, nproc)
+        d = sched.diff_snapshots(snap1, sched.snapshot(o))
+        case.check(not d, 'sched_identical', dict(mech, leg='virtual', field=(d[0] if d else None), after='mode2'),
+                   fields=d, order=order)
+        case.note('schedules_applied')
+
+
+def _generic_relations(case, b, S, snap1, mech):
+    from photutils.segmentation import SegmentationImage
+    facts = b['facts']
+    data = np.asarray(b['data'])
+    # (i) magnitude: a power-of-two factor is exact in IEEE arithmetic and every threshold spacing is
+    # defined relative to the source minimum / maximum (linear, exponential: min*(max/min)**t, sinh), so the
+    # unscaled image must give the bit-identical result
+    if facts.get('scale_kind') == 'pow2' and data.dtype.kind == 'f' and facts['scale'] != 1.0:
+        f = facts['scale']
+        un = data / f
+        tiny = np.finfo(un.dtype).tiny
+        nz = un[un != 0]
+        ok = bool(np.all(un * f == data)) and (nz.size == 0 or float(np.min(np.abs(nz))) > tiny * 2.0 ** 30) \
+            and float(np.max(np.abs(data))) < np.finfo(un.dtype).max / 2.0 ** 30
+        if ok:
+            import astropy.units as u
+            arg = un * u.Jy if b['quantity'] else un
+            d = sched.diff_snapshots(snap1, sched.snapshot(_call(b, 1, data=arg)))
+            case.check(not d, 'scale_pow2_identical', dict(mech, field=(d[0] if d else None)), fields=d,
+                       log2_scale=float(np.log2(f)))
+            case.note('relation_scale_pow2')
+        else:
+            case.note('relation_scale_pow2_skipped_inexact')
+    # (iii) layout: plain C-contiguous native copies of both arrays must give the same values
+    if b['layout'] != 'C' or 'seg_layout' in facts:
+        dc = np.ascontiguousarray(data).astype(data.dtype.newbyteorder('='))
+        sc_ = np.ascontiguousarray(S).astype(S.dtype.newbyteorder('='))
+        import astropy.units as u
+        arg = dc * u.Jy if b['quantity'] else dc
+        oc = _call(b, 1, data=arg, seg=SegmentationImage(sc_))
+        vs1 = sched.value_snapshot(_call(b, 1))
+        d = sched.diff_snapshots(vs1, sched.value_snapshot(oc))
+        case.check(not d, 'layout_identical', dict(mech, field=(d[0] if d else None)), fields=d,
+                   data_layout=b['layout'], seg_layout=facts.get('seg_layout'))
+        case.note('relation_layout')
 
 
 def _history(case, b, S, snap1, mech):
@@ -472,8 +619,12 @@ def _realpool_case(case, tmpdir, timeout=240):
     case.params.update(n_labels=res['n_labels'], n_split=res['ref_nsplit'])
     case.nontrivial = res['ref_nsplit'] >= 1
     case.digest = core.digest(['realpool', case.seed, k])
+    d = res.get('serial_again_diff')
+    if d is not None:
+        case.check(not d, 'serial_repeatable', {'cls': 'realpool', 'leg': 'real', 'after': 'mode2',
+                                                 'field': (d[0] if d else None)}, fields=d)
     for run in res['runs']:
-        mech = {'cls': 'realpool', 'leg': 'real'}
+        mech = {'cls': 'realpool', 'leg': 'real', 'call': run.get('call', 'A')}
         if run['raised'] is not None:
             case.check(False, 'sched_raised', dict(mech, exc=run['raised']['exc'], at=run['raised']['at']),
                        nproc=run['nproc'], msg=run['raised'].get('msg'))
